@@ -242,6 +242,10 @@ func runC14(c *run.Ctx) {
 		q := htmlAttrQuote(string(u))
 		entry([]byte("<a href=" + q + "><img src=" + q + "><q cite=" + q + ">"))
 	})
+	SeqsS(c, "c14data", dataURIFrags, 1, 3, func(u []byte, _ []int) {
+		entry([]byte("<img src=" + htmlAttrQuote(string(u)) + ">"))
+		entry([]byte("<img src=" + htmlAttrQuote("data:"+string(u)) + ">"))
+	})
 	dtexts := make([]string, len(c10Decls))
 	for i, d := range c10Decls {
 		dtexts[i] = d.text + "; "
